@@ -4,24 +4,21 @@
 
    Proved for ALL byte streams, ALL source chunkings and ALL sequences of Read buffer sizes:
    the constructor rejects short headers and negative sizes; the bytes delivered never exceed
-   the declared size; what a nil Close certifies.  Termination within a bound and absence of
-   index errors depend on the adaptive Huffman invariant (DESIGN.md section 6 C06 layer 2) and
-   are decided per run by the correspondence check (watchdog and read-count bound on the
-   implementation, fuel in the model); the full statements are kept as Props. *)
-From Verif Require Import Base.Bytes Lzhuf.Huff Lzhuf.Enc Lzhuf.Crc Lzhuf.CrcP Lzhuf.Dec Lzhuf.DecP
-  Lzhuf.Canon.
+   the declared size; what a nil Close certifies; reading to the end TERMINATES with io.EOF or
+   an error within a bound linear in the input length (C08_terminates: every loop iteration
+   of Read consumes at least one bit or records the end of input, and delivers at most 60
+   bytes); every tree the reader reaches satisfies the adaptive Huffman invariant, so every
+   decoded symbol is below NumChar and every array index is in range (C08_tree_invariant,
+   C08_symbol_in_range); and the verdict is sound (C08_verdict): whenever reading ends with
+   io.EOF and Close returns nil, the body of the stream starts with the bits of a token
+   sequence (the canonical format, Lzhuf/Tokens.v) whose expansion is exactly the bytes
+   read, in the declared number -- with C08_close_certifies for the CRC.  (The statement
+   first written down here spoke of the reference decoder Canon.decode on a prefix of the
+   stream; by C07_reference_decodes_format the reference decodes such a token stream to the
+   same expansion.) *)
+From Verif Require Import Base.Bytes Lzhuf.Huff Lzhuf.HuffInv Lzhuf.HuffInvP Lzhuf.HuffP Lzhuf.HuffWalkP
+  Lzhuf.Enc Lzhuf.Crc Lzhuf.CrcP Lzhuf.Dec Lzhuf.DecP Lzhuf.DecTermP Lzhuf.Bits Lzhuf.Tokens Lzhuf.ReadSeq Lzhuf.ReadSeqP Lzhuf.LzhufP Lzhuf.Canon gen.Tables.
 Open Scope N_scope.
-
-(* FULL STATEMENTS (not asserted) *)
-Definition C08_terminates_statement : Prop :=
-  forall (crc : bool) (s : list bytes) (d : reader) (bs : nat),
-    new_reader crc s = Some d -> (0 < bs)%nat ->
-    exists fuel, (fuel <= 8 * length (concat s) + 8)%nat /\
-      match read_all_loop fuel d bs [] with (_, st, _) => st <> RNil end.
-Definition C08_verdict_statement : Prop :=
-  forall (crc : bool) (s : bytes) (d d' : reader) (bs fuel : nat) (out : bytes) (st : rstatus),
-    new_reader crc [s] = Some d -> read_all_loop fuel d bs [] = (out, st, d') ->
-    close_reader d' = ErrNone -> exists k, Canon.decode crc (firstn k s) = Some out.
 
 (* streams shorter than the header make the constructor fail (never a panic) *)
 Theorem C08_constructor_short : forall (crc : bool) (s : list bytes),
@@ -55,11 +52,58 @@ Print Assumptions C08_read_accounting.
    CRC when present, and the number of bytes delivered equals the declared size. *)
 Theorem C08_close_certifies : forall d,
   close_reader d = ErrNone ->
-  rerr_ d = ErrNone /\ berr (rbits d) = ErrNone /\
-  (rcrc16 d = true -> hcrc d = crc_feed (crcsum (rbits d)) [0; 0]) /\
+  rerr_ d = ErrNone /\ berr (Dec.rbits d) = ErrNone /\
+  (rcrc16 d = true -> hcrc d = crc_feed (crcsum (Dec.rbits d)) [0; 0]) /\
   hsize d = delivered d.
 Proof. exact close_ok_certifies. Qed.
 Print Assumptions C08_close_certifies.
+
+(* Termination: for any bytes in any chunking (empty chunks = source reads that return
+   nothing), reading to the end with any positive buffer size ends with io.EOF or an error
+   after at most 60 * (8 * len + 8) + 2 Read calls.  (The bound first written down in this
+   file, 8 * len + 8 calls, was wrong: one token of about ten bits can expand to 60 bytes,
+   each of which may take its own 1-byte Read.) *)
+Theorem C08_terminates : forall (crc : bool) (s : list bytes) (d : reader) (bs : nat),
+  new_reader crc s = Some d -> (0 < bs)%nat ->
+  exists fuel, (fuel <= 60 * (8 * length (concat s) + 8) + 2)%nat /\
+    match read_all_loop fuel d bs [] with (_, st, _) => st <> RNil end.
+Proof. exact reader_terminates. Qed.
+Print Assumptions C08_terminates.
+
+(* every Read with a non-empty buffer that returns nil delivers at least one byte *)
+Theorem C08_read_productive : forall d n out d',
+  read d n = (out, RNil, d') -> (0 < n)%nat -> (rpos d <= hsize d)%Z -> (1 <= length out)%nat.
+Proof. exact read_productive. Qed.
+Print Assumptions C08_read_productive.
+
+(* no index error: the tree of every state the reader reaches satisfies the adaptive
+   Huffman invariant (the constructor starts from newLZHUFF's tree, which satisfies it), and
+   under the invariant every decoded symbol is below NumChar, whatever bits arrive *)
+Theorem C08_tree_invariant : forall crc s d,
+  new_reader crc s = Some d -> Inv (rh d) /\
+  forall d1 n out st d2, Inv (rh d1) -> read d1 n = (out, st, d2) -> Inv (rh d2).
+Proof.
+  intros crc s d H. split; [|exact reader_keeps_inv].
+  destruct (new_reader_init update_inv crc s d H) as [E _]. rewrite E. exact huff_init_inv.
+Qed.
+Print Assumptions C08_tree_invariant.
+Theorem C08_symbol_in_range : forall h b, Inv h -> fst (fst (decode_char h b)) < lz_NumChar.
+Proof. intros h b Hi. apply decode_char_symbol. apply Hi. Qed.
+Print Assumptions C08_symbol_in_range.
+
+(* the verdict: io.EOF and a nil Close mean that what was read is the expansion of the token
+   sequence the body starts with, and has the declared length; for any Read buffer sizes
+   (zero-length reads included) *)
+Theorem C08_verdict : forall (crc : bool) (s : bytes) (d d' : reader) (sizes : list nat) (out : bytes),
+  Forall (fun x => x < 256) s ->
+  new_reader crc [s] = Some d ->
+  read_seq d sizes [] = (out, REof, d') -> close_reader d' = ErrNone ->
+  exists toks pad,
+    Forall tok_wf toks /\ out = expand win_init toks /\
+    bytes_bits (body_part crc s) = toks_bits huff_init toks ++ pad /\
+    Z.of_nat (length out) = hsize d.
+Proof. exact verdict_sound. Qed.
+Print Assumptions C08_verdict.
 
 (* Regression witnesses of the two repaired defects, on the model: a negative size is
    refused; a declared size smaller than what the stream encodes stops at the size with
